@@ -67,6 +67,19 @@ def _run(steps, backend, limit_s, solver, vs, events, touched, limited):
             v = solver.int_var(st["lo"], st["hi"])
             vs.append(v)
             events.append({"ev": "int_var", "id": v.id, "lo": v.lo, "hi": v.hi})
+        elif a in ("bool_array", "int_array"):
+            # one call declaring shape-many variables; the cells are read back through public indexing, row-major
+            shape = st["shape"]
+            arg = shape[0] if len(shape) == 1 else tuple(shape)
+            arr = solver.bool_array(arg) if a == "bool_array" else solver.int_array(arg, st["lo"], st["hi"])
+            if len(shape) == 1:
+                cells = [arr[i] for i in range(shape[0])]
+            else:
+                cells = [arr[y, x] for y in range(shape[0]) for x in range(shape[1])]
+            vs.extend(cells)
+            events.append({"ev": "array", "kind": "bool" if a == "bool_array" else "int", "shape": list(shape),
+                           "ids": [c.id for c in cells], "lo": st.get("lo", 0), "hi": st.get("hi", 0),
+                           "got_shape": list(arr.shape), "declared": len(solver.variables)})
         elif a == "ensure":
             ev = {"ev": "ensure", "x": _strip(st["x"]), "status": "ok", "exc": ""}
             try:
